@@ -114,4 +114,25 @@ CHECKS = {
         'note': 'Known finding: the replacement that receives metadata may be an existing node of the input tree. Whole-tree "exactly once, children first" by induction on height (paper). '
                 '_replace by contract (C14). == between objects modelled as unknown reflexive relation, `is` as identity.',
     },
+    'C04': {
+        'category': 'proof',
+        'technique': 'contract-based deductive verification: leaf fragment contracts with the skip request, Skip loop invariant; schematic wiring check on the real translator',
+        'text': 'Str/Regex/Byte fragments with skipping are proved: on success the position is the driver\'s answer for the _ignored rule at the end of '
+                'the literal match, on failure no request is made and the position is unchanged, results never contain skipped text; _ignored is Skip over '
+                'references (maximal run, always succeeds). Schematic obligations on 7 grammar shapes: _ignored requests exactly the declared rules, the '
+                'entry rule begins with the skip, every literal skips exactly once after success and nothing else does; visit reaches every child of every class.',
+        'design_ref': 'DESIGN.md 6 C04',
+        'note': 'Known finding: grammars without a rule named start get no leading skip. Second sentence of the statement (metamorphic) only on paper. Wiring exhaustive over the shape family only.',
+    },
+    'C06': {
+        'category': 'proof',
+        'technique': 'contract-based deductive verification: Call fragment contract over abstract arguments; case-complete adaptor analysis of emitted helpers; sentinel execution of the wrappers',
+        'text': 'Call fragments (callee rule/parameter x 8 argument kinds x positional/keyword x both conventions) proved to emit one request '
+                '(CALL, _ParseFunction(callee, args in order, keyword pairs), entry position); argument helpers: parameters = captured tuple in order, body = '
+                'inline fragment + final yield, no free names; references resolve to the innermost binder; constructor interception limited to documented names; '
+                'ParsedObject.__eq__ (memo-key component for object-valued arguments) proved structural.',
+        'design_ref': 'DESIGN.md 6 C06',
+        'note': 'Known findings: == memo keys conflate 1/True/1.0 and reject unhashable values; names used in inline Python are not captured. Expansion semantics and '
+                'non-interference rest on C05 (locals) and C07 (same outcome for == keys).',
+    },
 }
